@@ -150,7 +150,7 @@ PROPS = {
              "with random widths 1..70, heights 1..5, strides, start alignments, clips, is executed by one process per implementation chain (PIXMAN_DISABLE): quick 7 chains "
              "{all, no ssse3, mmx top, C only, general only, wholeops, wholeops+general only}, thorough all 32 subsets; each case logs a 64-bit digest of the defined destination bits (+ row padding and alpha map) and an offline checker "
              "requires every chain to agree on every case; evaluations = executed requests; a cell = (op, operand kinds/formats, transform class, filter, repeat, clip/cover/CA/accessor flags) by hash; "
-             "labels 'fastpath'/'iter' list the routines that were actually selected (trace hook, coverage only)",
+             "labels 'fastpath'/'iter' list the routines that were actually selected (trace hook, coverage only); every 25th case is a raw pixman_fill / pixman_blt call (filler with junk above the pixel size) whose digest is the buffer when the chain serves the call and a byte model when it refuses, so chains agree exactly when every served call equals the model; source and mask may be two views of one buffer at different offsets",
         floors={"any": {"cases_compared_across_chains": 5000, "labels:recipes_used": 560, "labels:fastpath": 140}},
         assumptions=["the oracle is agreement between chains, not an absolute reference (absolute correctness: C01, C08, C10)", "ARM/MIPS/VMX implementations are not compiled on this host"],
     ),
@@ -176,7 +176,7 @@ PROPS = {
         rule="the C02 request stream (every fast-path / iterator table entry + random requests) with every source, mask, destination and alpha map in exact-size storage: guard pages directly after (2/3) or before (1/3) the storage in the plain flavour, "
              "exact-size malloc blocks (red zones) or guard pages under ASan; 1/3 of the requests use the hostile-geometry profile (offsets up to +-2^31, rectangles up to 140000 wide, scales 1/4000..4000, translations to +-32767, "
              "projective rows with w crossing 0, very wide (12000..32767) sources, negative strides); the oracle is the absence of an ASan report, a guard-page fault or a bounds/null report, attributed to the in-flight request; "
-             "evaluations = executed requests; a cell = request class hash; labels list the routines executed",
+             "further runs: trapezoid entry points, pixman_fill/blt/fill_boxes (clips larger than the image, far-edge rectangles) and the transformed-sampling monitor (tight quarter turns about grid and half-grid centres, wrap-around exactly at the source width, translations one unit off the quarter grid) with their behavioural oracles switched off; evaluations = executed requests; a cell = request class hash; labels list the routines executed",
         floors={"any": {"hostile_mode_cases": 50000, "labels:fastpath": 140, "labels:iter": 50}},
         assumptions=["storage the caller described = rows up to the end of the last 32-bit word holding a pixel (+ inter-row padding of a padded stride)",
                      "red-zone/guard-page detection misses non-adjacent overflows into other live heap blocks and intra-object overflows"],
@@ -387,18 +387,18 @@ MANIFEST_TEXT["C02"] = dict(
     level_note="trusted: digest over defined destination bits; table walking uses the private header for workload steering only")
 
 MANIFEST_TEXT["C04"] = dict(
-    technique="AddressSanitizer + bounds/null UBSan + mprotect guard pages around exact-size pixel storage, crash attribution to the in-flight request; table-directed and hostile-geometry workloads under 6 implementation chains",
+    technique="AddressSanitizer + bounds/null UBSan + mprotect guard pages around exact-size pixel storage, crash attribution to the in-flight request; table-directed and hostile-geometry composites under 6 implementation chains, plus trapezoid, fill/blt/fill_boxes and transformed-sampling workloads (tight quarter turns, wrap-around exactly at the source width) on guarded storage",
     level_text="Exploration: ~10^5 (quick) to ~5*10^6 (thorough) requests covering every fast-path/iterator table entry and hostile geometry, every image in exact-size guarded storage, under ASan and guard pages for several PIXMAN_DISABLE chains; a report or fault is a violation tied to the request.",
     level_note="trusted: ASan/guard pages as oracle; what counts as described storage is stated in the evidence assumptions")
 
 MANIFEST_TEXT["C01"] = dict(
     technique="reference-model runtime monitor: exact 8-bit integer rule and real-valued Render/PDF equations evaluated on every destination pixel (default and general-only chains, plain + ASan)",
     level_text="Exploration: ~10^7 (quick) to ~10^9 (thorough) destination pixels over all 53 operators x 3 mask modes x every direct-colour format (narrow, 10-bit, sRGB, float) and operand kind, each compared with an independent oracle: bit-exact for Porter-Duff/ADD on narrow formats, one destination step for float evaluation; the thorough tier walks all 256x256 alpha pairs for the 14 exact operators.",
-    level_note="trusted: harness/ref_ops.c (equations from the Render/PDF specifications) and ref_pixel.c (codec); HSL with component alpha, dithering and indexed/YUV operands are outside this check")
+    level_note="trusted: harness/ref_ops.c (equations from the Render/PDF specifications) and ref_pixel.c (codec); HSL with component alpha, dithering and YUV operands are outside this check; palette operands are judged as their palette entries")
 
 MANIFEST_TEXT["C19"] = dict(
     technique="model-based runtime monitor (byte model for fill/blt on guard-paged storage) + differential monitor (fill_boxes vs per-box compositing), 4 implementation chains, plain + ASan",
-    level_text="Exploration: 10^5..10^7 calls over every depth, alignment, stride, operator, colour and destination format; fill/blt judged byte-for-byte against a model including everything outside the rectangle, fill_boxes judged against compositing.",
+    level_text="Exploration: 10^5..10^7 calls over every depth, alignment, stride, operator, colour and destination format; fill/blt judged byte-for-byte against a model including everything outside the rectangle (also copies inside one buffer and mismatched depths), fill_boxes/fill_rectangles judged against compositing (also rectangles reaching beyond 32767 and clips larger than the image).",
     level_note="trusted: byte model in harness/mon_blt.c; digest of defined destination bits for the differential part")
 
 MANIFEST_TEXT["C03"] = dict(
@@ -408,12 +408,12 @@ MANIFEST_TEXT["C03"] = dict(
 
 MANIFEST_TEXT["C10"] = dict(
     technique="reference-codec runtime monitor, exhaustive over pixel values for bpp <= 16; translating accessors on an unmapped fake base (a bypass faults); bit-level store footprint",
-    level_text="Exploration, exhaustive in the pixel-value dimension for all formats up to 16 bpp: decode, encode, round trips, footprint, reader agreement and accessor equivalence are each compared with an independent codec.",
+    level_text="Exploration, exhaustive in the pixel-value dimension for all formats up to 16 bpp: decode, encode, round trips, footprint, reader agreement (8-bit and float, scanline vs single pixel, YUV from every start column) and accessor equivalence (also for callbacks installed after first use, on one side only, and removed again) are each compared with an independent codec.",
     level_note="trusted: harness/ref_pixel.c; conversions go through OP_SRC composites (default and general-only chains)")
 
 MANIFEST_TEXT["C08"] = dict(
     technique="reference-model runtime monitor: exact-arithmetic sampling positions, bit-exact nearest/bilinear reference, kernel-alignment reference for convolutions, under 4 implementation chains",
-    level_text="Exploration: 10^6..10^8 destination pixels of transformed OP_SRC composites compared with an independent sampler: bit-exact for affine nearest/bilinear, +-1 code value for convolutions, admissible-position window for projective transforms.",
+    level_text="Exploration: 10^6..10^8 destination pixels of transformed OP_SRC and OP_OVER composites (with a8 masks made of runs) compared with an independent sampler: bit-exact for affine nearest/bilinear, +-1 code value for convolutions, admissible-position window for projective transforms.",
     level_note="trusted: the sampler in harness/mon_c08.c; codec from ref_pixel.c")
 
 MANIFEST_TEXT["C09"] = dict(
@@ -428,12 +428,12 @@ MANIFEST_TEXT["C12"] = dict(
 
 MANIFEST_TEXT["C13"] = dict(
     technique="reference-model runtime monitor (geometric parameter + stop interpolation with uncertainty hull) + ASan/UBSan safety sweep over degenerate gradients with a CPU-time bound per case",
-    level_text="Exploration: 10^6..10^8 gradient pixels judged against an independent reference within one quantisation step, plus 10^4..10^6 degenerate gradients under sanitizers for the crash/hang/out-of-bounds clause.",
+    level_text="Exploration: 10^6..10^8 gradient pixels judged against an independent reference within one quantisation step (touching circles, long rows of sub-1/65536 advance and, many repetitions out, the hull of a whole period included), plus 10^4..10^6 degenerate gradients under sanitizers for the crash/hang/out-of-bounds clause.",
     level_note="trusted: the reference in harness/mon_grad.c; ill-conditioned pixels are skipped and counted")
 
 MANIFEST_TEXT["C14"] = dict(
     technique="history-vs-fresh-replica differential runtime monitor over random setter/composite programs (record kept at the API boundary), default and general-only chains, plain + ASan",
-    level_text="Exploration: 10^5..10^7 composites on images with 30-step setter histories, each compared bit-for-bit with fresh replicas given the same final properties and pixels; aimed at stale derived state (early-return comparisons, caches, dirty flags).",
+    level_text="Exploration: 10^5..10^7 composites on images with 30-step setter histories, each compared bit-for-bit with fresh replicas given the same final properties and pixels; aimed at stale derived state (early-return comparisons, caches, dirty flags); accessors keep the storage XOR-ed so that ignored callbacks show, alpha maps get their own setters and may be another image of the request, a quarter of the programs scroll an interpolated source on and off the pixel grid.",
     level_note="trusted: the property record in harness/mon_hist.c and the replica builder in vf_req.c")
 
 MANIFEST_TEXT["C15"] = dict(
@@ -448,7 +448,7 @@ MANIFEST_TEXT["C17"] = dict(
 
 MANIFEST_TEXT["C20"] = dict(
     technique="history-vs-ownership-model runtime monitor (unref return values, destroy-callback counts and timing, refusal of alpha-map chains) with link-time allocation accounting at quiescent points and AddressSanitizer for double free / use after free",
-    level_text="Exploration: 10^5..10^7 random programs of create/ref/unref/set_alpha_map/setters/draw/glyph-cache calls over a pool of up to 12 images; every unref and attachment judged against the model, every program ends in a quiescent point where live library blocks must be zero",
+    level_text="Exploration: 10^5..10^7 random programs of create/ref/unref/set_alpha_map/setters/draw/glyph-cache calls over a pool of up to 12 images; every unref and attachment judged against the model, refused requests (impossible filter sizes, malformed creations) included, every program ends in a quiescent point where live library blocks must be zero",
     level_note="trusted: the ownership model in harness/mon_life.c; the malloc wrappers in harness/vf_alloc.c")
 
 MANIFEST_TEXT["C16"] = dict(
